@@ -16,7 +16,7 @@ CONDS = ['tsv_first_last', 'tsv_middle', 'tsv_three_small', 'tsv_wrong_count', '
 INFO = {
     'engine': 'crosshair-tool 0.0.110 + z3',
     'explanation': 'see level text',
-    'bounds': {'quick': dict({c: 'see precondition in harness/ch_c16.py' for c in CONDS}, loop_tsv='2 rows x 3 tab-separated cells from {empty, blank, a} through the real streaming loop'), 'thorough': dict({c: 'same conditions with one more symbolic character per string, longer per-condition budget' for c in CONDS}, loop_tsv='as quick')},
+    'bounds': {'quick': dict({c: 'see precondition in harness/ch_c16.py' for c in CONDS}, loop_tsv='2 rows x 3 tab-separated cells (first row from {empty, blank, a, ", "a}, second from {empty, blank, a}) through the real streaming loop'), 'thorough': dict({c: 'same conditions with one more symbolic character per string, longer per-condition budget' for c in CONDS}, loop_tsv='as quick')},
     'outside': ['cells containing line breaks (excluded by the statement)', 'longer cells / more columns', 'the field-count test of the streaming loop on malformed lines (C08 drives it); here it is driven with well-formed tab-separated rows only'],
     'assumptions': ['open() replaced by a list-of-lines stub for the namespace map', 'SequenceConcatenation.__eq__ of crosshair 0.0.110 patched; sequences compared element-wise'],
     'job_timeout': {'quick': 500, 'thorough': 1800},
@@ -27,7 +27,7 @@ _ch_jobs, _ch_run = chharness.make('harness.ch_c16', CONDS, {'quick': 150, 'thor
 
 
 # ---- the field-count test of the streaming loop on WELL-FORMED tab-separated rows (cells empty / blank anywhere) ----
-LOOP_POOL = ['', ' ', 'a']
+LOOP_POOL = ['', ' ', 'a', '"', '"a']      # tab-separated text has no quoting layer: a cell may start with a double quote
 LOOP_ROWS = 2
 
 
@@ -55,8 +55,8 @@ def run_loop(job):
 
     def setup(ctx):
         st['c'] = [z3.Int(f'c{i}') for i in range(NC)]
-        for v in st['c']:
-            ctx.assume(v >= 0, v < len(LOOP_POOL))
+        for i, v in enumerate(st['c']):
+            ctx.assume(v >= 0, v < (len(LOOP_POOL) if i < 3 else 3))      # the quote cells in the first row only
         for k, v in job['pins'].items():
             ctx.assume(z3.Int(k) == v)
 
